@@ -22,6 +22,7 @@
      res, Ok, Err, ierr, bind                                   error monad (Python exceptions)
      store, store_get, store_set                                normalized_objectives attribute
      qminl, qmaxl, column, norm_vec, normalize                  core.normalize
+     zip2, zip3, normv                                          textbook normalisation (o-min)/(max-min)
      sqdist, l1dist, nearest_sq, adj_diff                       distances
      xval (XInf | XFin q), ind_make (constructor of the four classes)
      eps_calculate, gd_calculate, igd_calculate, spacing_calculate
@@ -84,6 +85,21 @@ Definition qmaxl (l : list Q) : res Q := match l with [] => Err EValueEmpty | x 
 
 (* [s.objectives[i] for s in sols] *)
 Definition column (sols : list isol) (i : nat) : res (list Q) := mapM (fun s => nth_res (s_objs s) i) sols.
+
+(* ---------- textbook normalisation (specification side) ---------- *)
+Fixpoint zip3 {A B C D} (f : A -> B -> C -> D) (a : list A) (b : list B) (c : list C) : list D :=
+  match a, b, c with
+  | x :: a', y :: b', z :: c' => f x y z :: zip3 f a' b' c'
+  | _, _, _ => []
+  end.
+Fixpoint zip2 {A B C} (f : A -> B -> C) (a : list A) (b : list B) : list C :=
+  match a, b with
+  | x :: a', y :: b' => f x y :: zip2 f a' b'
+  | _, _ => []
+  end.
+(* (objs - mins)/(maxs - mins), coordinate by coordinate *)
+Definition normv (mins maxs objs : list Q) : list Q :=
+  zip3 (fun o lo hi => (o - lo) / (hi - lo)) objs mins maxs.
 
 (* ---------- core.normalize (core.py:1581-1630) ---------- *)
 Definition EPSILON : Q := 1 # 4503599627370496.     (* sys.float_info.epsilon = 2^-52 *)
@@ -255,6 +271,13 @@ Definition spacing_distances (feas : list isol) : res (list Q) :=
 
 Definition qsum (l : list Q) : Q := fold_right Qplus 0 l.
 
+(* every manhattan_dist value the implementation computes, in call order *)
+Definition spacing_rows (set : list isol) : res (list (list Q)) :=
+  let feas := feasible set in
+  if Nat.ltb (length feas) 2 then Ok []
+  else mapM (fun s1 => mapM (fun s2 => l1dist (s_objs s1) (s_objs s2))
+                            (filter (fun s2 => negb (Nat.eqb (s_sid s1) (s_sid s2))) feas)) feas.
+
 Definition spacing_calculate (set : list isol) : res Q :=
   let feas := feasible set in
   if Nat.ltb (length feas) 2 then Ok 0
@@ -286,6 +309,39 @@ Definition igd_rows (nobjs : nat) (ref set : list isol) : res (list (list Q)) :=
   let feas := feasible set in
   do r <- normalize nobjs (snd c) feas (Some (i_min (fst c))) (Some (i_max (fst c)));
   match feas with
-  | [] => Ok []
+  | [] => Ok (map (fun _ => []) (i_ref (fst c)))       (* distance_to_nearest returns +inf at once: no sqrt *)
   | _ => mapM (fun s => sq_row (snd r) s feas) (i_ref (fst c))
   end.
+
+(* ================= textbook definitions (specification side) =================
+   Pure functions of lists of (normalised) objective vectors: no store, no identities, no
+   error cases.  lmax / lmin of the empty list are 0 by convention (never used on it). *)
+Definition lmax (l : list Q) : Q := match l with [] => 0 | x :: r => qmax_from x r end.
+Definition lmin (l : list Q) : Q := match l with [] => 0 | x :: r => qmin_from x r end.
+
+(* the amounts by which s is worse than r, objective by objective, in the declared direction *)
+Definition dev (dirs : list bool) (r s : list Q) : list Q := zip3 adj_diff dirs s r.
+
+(* additive epsilon indicator: max over reference points r of min over members s of
+   max over objectives k of  +-(s_k - r_k) *)
+Definition eps_textbook (dirs : list bool) (R S : list (list Q)) : Q :=
+  lmax (map (fun r => lmin (map (fun s => lmax (dev dirs r s)) S)) R).
+
+(* squared Euclidean distance, squared distance to the nearest member of Y *)
+Definition sqd (x y : list Q) : Q := qsum (zip2 (fun a b => (a - b) * (a - b)) x y).
+Definition nsq (x : list Q) (Y : list (list Q)) : Q := lmin (map (sqd x) Y).
+
+(* GD: d_i^2 for every member of the approximation set S (distance to the reference set R);
+   IGD: the same with the roles exchanged.  GD_p = (sum_i d_i^p)^(1/p) / |S| *)
+Definition gd_terms_textbook (R S : list (list Q)) : list Q := map (fun s => nsq s R) S.
+
+(* spacing: d_i = smallest L1 distance from member i to ANOTHER listed object;
+   spacing^2 = sum (d_i - mean)^2 / (n - 1) *)
+Definition l1d (x y : list Q) : Q := qsum (zip2 (fun a b => Qabs (a - b)) x y).
+Definition spacing_sq_textbook (ds : list Q) : Q :=
+  let n := length ds in
+  let mean := qsum ds / inject_Z (Z.of_nat n) in
+  qsum (map (fun d => (d - mean) * (d - mean)) ds) / inject_Z (Z.of_nat (n - 1)).
+Definition spacing_ds_textbook (feas : list isol) : list Q :=
+  map (fun s1 => lmin (map (fun s2 => l1d (s_objs s1) (s_objs s2))
+                           (filter (fun s2 => negb (Nat.eqb (s_sid s1) (s_sid s2))) feas))) feas.
